@@ -189,7 +189,8 @@ func vfC16(w *vfWorld) {
 	// the Host the client names (part of both executions): the deployment's own, or one that matches no cookie domain
 	reqHosts := []string{"", "", "", "unrelated.test", "10.0.0.5", "other.sim"}
 	get := func(target string, peer string) *vfResp {
-		return do(&vfReq{Method: "GET", Target: target, RemoteAddr: peer, Host: reqHosts[t.Choice("c16.reqhost", len(reqHosts))]})
+		h := reqHosts[t.Choice("c16.reqhost", len(reqHosts))]
+		return do(&vfReq{Method: "GET", Target: target, RemoteAddr: peer, Host: h, EmptyHost: h == "" && t.Prob("c16.emptyhost", 150)})
 	}
 	// ("@" is what a unix-socket listener reports as the peer address)
 	peers := []string{"", "", "10.1.2.3:999", "203.0.113.9:1", "[2001:db8::1]:9", "198.51.100.99:7", "@"}
